@@ -149,11 +149,16 @@ fn run_avbc_file(
     let (mut function, mut heap, manifest_bytes, bundles) =
         aelys_bytecode::asm::deserialize_with_manifest(&bytes).map_err(|err| err.to_string())?;
 
-    // a bytecode file without an embedded manifest is still subject to the project
-    // manifest next to it
-    let manifest = match manifest_bytes.as_deref() {
+    // a bytecode file is subject to the project manifest next to it, whether or not it
+    // carries a manifest of its own: the embedded manifest (anything can append one to the
+    // file) speaks only for a file that is run where no project manifest is
+    let embedded_manifest = match manifest_bytes.as_deref() {
         Some(bytes) => Some(Manifest::from_bytes(bytes).map_err(|err| err.to_string())?),
-        None => Manifest::find_for_source_file(path).map_err(|err| err.to_string())?,
+        None => None,
+    };
+    let manifest = match Manifest::find_for_source_file(path).map_err(|err| err.to_string())? {
+        Some(project) => Some(project),
+        None => embedded_manifest,
     };
 
     let bundled_modules: HashMap<String, aelys_bytecode::asm::NativeBundle> =
